@@ -276,6 +276,9 @@ Proof.
   apply rb_andb; apply rb_nodupb_spec.
 Qed.
 
+Lemma toplevel_uniqueb_spec : forall m, toplevel_uniqueb m = true <-> R_toplevel_unique m.
+Proof. intro m. apply rb_nodupb_spec. Qed.
+
 (** * The reference checker decides the rules *)
 
 Theorem rulesb_spec : forall r m, rulesb r m = true <-> Rules r m.
@@ -296,7 +299,8 @@ Proof.
   apply rb_and; [apply shapesb_spec |].
   apply rb_and; [apply invs_uniqueb_spec |].
   apply rb_and; [apply refsb_spec |].
-  apply rb_and; [apply patternsb_spec | apply stacked_uniqueb_spec].
+  apply rb_and; [apply patternsb_spec |].
+  apply rb_and; [apply stacked_uniqueb_spec | apply toplevel_uniqueb_spec].
 Qed.
 
 (** Consequences used in Props/C06.v. *)
